@@ -218,6 +218,7 @@ func ordNode(args []string) int {
 	timed := fs.Bool("timed", false, "timed block generation (empty blocks allowed)")
 	lagMs := fs.Int("lag", 0, "upper bound (ms) of the stand-in executor's delay between persisting a block and reporting it")
 	feedhub := fs.Bool("feedhub", false, "blocks and peer messages go through the node's real feed hub (internal/app) instead of a loop of this harness")
+	unordered := fs.Bool("announce-unordered", false, "with -feedhub: executed blocks are announced from one goroutine each, as the real executor does; announcements may overtake each other")
 	killAfter := fs.Int("kill-after-deliveries", 0, "SIGKILL itself at VERIF_ORD_KILL point on the n-th delivery of this incarnation")
 	fs.Parse(args)
 	os.MkdirAll(*dir, 0755)
@@ -364,7 +365,7 @@ func ordNode(args []string) int {
 		}
 	}
 	if *feedhub {
-		hubExec = &feedExec{deliver: deliver, q: make(chan func(), 4096)}
+		hubExec = &feedExec{deliver: deliver, q: make(chan func(), 4096), unordered: *unordered}
 		go hubExec.run()
 		hub := app.VerifFeedHub(node, hubExec, nopRouter{}, &feedPM{pipeNet: net}, &repo.Repo{}, lg)
 		hub.VerifStart()
